@@ -237,3 +237,11 @@ def rules(t, *a, **kw):
     out = _rules_C16_w7(t, *a, **kw)
     out.append(W7.count_not_position(t, "C16.p"))
     return out
+
+
+_rules_C16_bw = rules
+def rules(t, *a, **kw):
+    import rules.bytewidth as BW
+    out = _rules_C16_bw(t, *a, **kw)
+    out.append(BW.byte_width_rule(t, "C16.q"))
+    return out
